@@ -29,3 +29,103 @@ Theorem level_repeat_free_closed g hots P cfg L ps :
                  routing_ok g hots L (ensureCorrectWindingOrder r (negb (Nat.eqb idx 0)))) ->
   snapLevel g hots P cfg L = Ok (Some ps) -> Forall (Forall (@NoDup pt)) ps.
 Proof. intros Hk. exact (level_repeat_free kmp_subseq_joined Hk g hots P cfg L ps). Qed.
+
+(** ** C05 at the level of snapPolygon *)
+Definition ring_well_formed (x : ring) : Prop :=
+  NoDup x /\ ((2 <= length x)%nat -> hd dp x <> last x dp /\ no_adj_dup x).
+
+Lemma NoDup_well_formed (x : ring) : NoDup x -> ring_well_formed x.
+Proof.
+  intro ND. split; [exact ND |]. intro Hl. pose proof (NoDup_no_adj_dup x ND Hl) as Hn. split; [| exact Hn].
+  apply ProofsSplitThms.no_adj_dup_first_last; [exact Hn |]. destruct x; [cbn in Hl; lia | discriminate].
+Qed.
+
+Theorem snap_rings_well_formed g P levels cfg r hs :
+  (forall r r', no_adj_dup r -> kmpDeduplicate r = Ok r' -> (length r' < 3)%nat -> NoDup r') ->
+  insertPolygon g P = Ok hs ->
+  (forall L idx r0, In L levels -> nth_error P idx = Some r0 ->
+     routing_ok g (hotLevels g hs) L (ensureCorrectWindingOrder r0 (negb (Nat.eqb idx 0)))) ->
+  snapPolygon g P levels cfg = Ok r ->
+  forall L ps poly x, In (L, ps) r -> In poly ps -> In x poly -> ring_well_formed x.
+Proof.
+  intros Hk Hi Hrt H L ps poly x Hin Hpoly Hx.
+  destruct (level_value _ _ _ _ _ _ _ H Hin) as [hs' [Hi' [HL Hl]]]. rewrite Hi in Hi'. inversion Hi'; subst hs'.
+  pose proof (level_repeat_free_closed g (hotLevels g hs) P cfg L ps Hk (fun idx r0 => Hrt L idx r0 HL) Hl) as F.
+  rewrite Forall_forall in F. specialize (F poly Hpoly). rewrite Forall_forall in F. apply NoDup_well_formed, F, Hx.
+Qed.
+
+Theorem snap_orientation g P levels cfg r L ps : snapPolygon g P levels cfg = Ok r -> In (L, ps) r ->
+  ps <> [] /\
+  exists big small, ps = big ++ small /\
+    Forall (poly_ok (if reverseWindingOrder cfg then -1 else 1)) big /\
+    Forall plpoly_ok small /\ (keepPointsAndLines cfg = false -> small = []).
+Proof.
+  intros H Hin. destruct (level_value _ _ _ _ _ _ _ H Hin) as [hs [Hi [HL Hl]]]. split.
+  - intro E. subst ps. apply (level_never_empty _ _ _ _ _ Hl).
+  - apply (level_orientation _ _ _ _ _ _ Hl).
+Qed.
+
+Theorem snap_keep_policy g P levels cfg rF rT :
+  snapPolygon g P levels (setKeep cfg false) = Ok rF -> snapPolygon g P levels (setKeep cfg true) = Ok rT ->
+  forall L ps, In (L, ps) rF ->
+    Forall (Forall (fun x : ring => (3 <= length x)%nat)) ps /\
+    exists extra, In (L, ps ++ extra) rT /\ Forall plpoly_ok extra.
+Proof.
+  intros HF HT L ps Hin. destruct (level_value _ _ _ _ _ _ _ HF Hin) as [hs [Hi [HL Hl]]].
+  destruct (keep_policy _ _ _ _ _ _ Hl) as [extra [E [Fe F3]]]. split; [exact F3 |].
+  exists extra. split; [| exact Fe]. apply (level_present g P levels (setKeep cfg true) rT hs L _ HT Hi HL E).
+Qed.
+
+(** ** a boolean check of the routing premises, for concrete polygons (non-vacuity examples) *)
+Definition pixelCentre (g : grid) (L : nat) (p : pt) : pt :=
+  let d := deepestCoord g p in
+  let k := pow2 (gdeep g - L) in
+  quadCentroid g L (fst d / k) (snd d / k).
+
+Definition adjdupb (l : list pt) : bool := existsb (fun e => pt_eqb (fst e) (snd e)) (pairs l).
+
+Lemma adjdupb_sound l : adjdupb l = false -> no_adj_lin l.
+Proof.
+  intros H a b Hin Eab. subst b. unfold adjdupb in H.
+  assert (T : existsb (fun e : pt * pt => pt_eqb (fst e) (snd e)) (pairs l) = true); [| congruence].
+  apply existsb_exists. exists (a, a). split; [exact Hin | apply pt_eqb_refl].
+Qed.
+
+Definition routing_okb (g : grid) (hots : list (list (Z * Z))) (L : nat) (r' : ring) : bool :=
+  forallb (fun e => let s := snapClosestPoints g hots (fst e) (snd e) L in
+                    (isnil s || (pt_eqb (hd dp s) (pixelCentre g L (fst e)) && pt_eqb (last s dp) (pixelCentre g L (snd e))))
+                    && negb (adjdupb s)) (dedges r').
+
+Lemma routing_okb_sound g hots L r' : routing_okb g hots L r' = true -> routing_ok g hots L r'.
+Proof.
+  intro H. unfold routing_okb in H. rewrite forallb_forall in H. split.
+  - exists (pixelCentre g L). intros a b Hin Hne. specialize (H (a, b) Hin). cbn [fst snd] in H. cbn zeta in H.
+    apply andb_prop in H. destruct H as [H _]. apply orb_prop in H. destruct H as [H | H].
+    + destruct (snapClosestPoints g hots a b L); [congruence | discriminate].
+    + apply andb_prop in H. destruct H as [H1 H2]. apply pt_eqb_eq in H1, H2. auto.
+  - intros a b Hin. specialize (H (a, b) Hin). cbn [fst snd] in H. cbn zeta in H.
+    apply andb_prop in H. destruct H as [_ H]. apply negb_true_iff in H. apply adjdupb_sound, H.
+Qed.
+
+Fixpoint indexed {A} (k : nat) (l : list A) : list (nat * A) :=
+  match l with [] => [] | a :: r => (k, a) :: indexed (S k) r end.
+
+Lemma indexed_nth {A} (l : list A) : forall k idx a, nth_error l idx = Some a -> In ((k + idx)%nat, a) (indexed k l).
+Proof.
+  induction l as [| x l IH]; intros k [| idx] a H; cbn [nth_error] in H; try discriminate.
+  - inversion H; subst. rewrite Nat.add_0_r. left. reflexivity.
+  - right. rewrite <- Nat.add_succ_comm. apply IH, H.
+Qed.
+
+Definition all_routing_okb (g : grid) (hots : list (list (Z * Z))) (levels : list nat) (P : list ring) : bool :=
+  forallb (fun L => forallb (fun ir => routing_okb g hots L (ensureCorrectWindingOrder (snd ir) (negb (Nat.eqb (fst ir) 0))))
+                            (indexed 0 P)) levels.
+
+Lemma all_routing_okb_sound g hots levels P : all_routing_okb g hots levels P = true ->
+  forall L idx r0, In L levels -> nth_error P idx = Some r0 ->
+    routing_ok g hots L (ensureCorrectWindingOrder r0 (negb (Nat.eqb idx 0))).
+Proof.
+  intros H L idx r0 HL Hn. unfold all_routing_okb in H. rewrite forallb_forall in H. specialize (H L HL).
+  rewrite forallb_forall in H. specialize (H (idx, r0) (indexed_nth P 0 idx r0 Hn)). cbn [fst snd] in H.
+  apply routing_okb_sound, H.
+Qed.
